@@ -4,6 +4,7 @@
 package e6modfile
 
 import (
+	"os"
 	"fmt"
 	"go/ast"
 	"go/constant"
@@ -49,112 +50,194 @@ func structName(t types.Type) string {
 	return ""
 }
 
-// literal: an Alloc (or value built field by field) of a named struct, with the values stored per field.
+// literal: an Alloc (or value built field by field) of a named struct, with the values stored per field. A literal
+// made inside a helper or a local closure of the analysed function is one instance per call, the helper's
+// parameters and the closure's captured variables bound to what the caller passes.
 type literal struct {
 	alloc  *ssa.Alloc
 	name   string
 	fields map[string]ssa.Value
 	pos    token.Pos
-	// a literal built by a constructor helper: the helper's parameters are bound to the arguments of this call
-	env  map[*ssa.Parameter]ssa.Value
-	site *ssa.BasicBlock // where the literal comes into being in the analysed function
+	env    map[ssa.Value]ssa.Value
+	site   *ssa.BasicBlock   // where the instance comes into being in the analysed function
+	inner  []*ssa.BasicBlock // the blocks inside helpers that lead to it (outermost first)
+	retOf  *ssa.Function     // the helper that returns this literal as its first result together with a nil error
+	call   *ssa.Call         // the call (in the analysed function) through which the instance exists
 }
 
-// envPath renders v like e5path.AccessPath, with the parameters of a constructor helper replaced by the
-// access paths of the arguments it was called with.
-func envPath(v ssa.Value, env map[*ssa.Parameter]ssa.Value) string {
-	p := e5path.AccessPath(v)
-	for prm, arg := range env {
-		n := prm.Name()
-		if p == n {
-			return e5path.AccessPath(arg)
-		}
-		if strings.HasPrefix(p, n+".") {
-			return e5path.AccessPath(arg) + p[len(n):]
-		}
-	}
-	return p
+func envPath(v ssa.Value, env map[ssa.Value]ssa.Value) string {
+	return e5path.WithBindings(v, env)
 }
 
-func literalsOf(fn *ssa.Function, names map[string]bool) []literal {
-	var out []literal
-	for _, b := range fn.Blocks {
-		for _, in := range b.Instrs {
-			al, ok := in.(*ssa.Alloc)
-			if !ok || !names[structName(al.Type())] {
-				continue
-			}
-			l := literal{alloc: al, name: structName(al.Type()), fields: map[string]ssa.Value{}, pos: al.Pos()}
-			if refs := al.Referrers(); refs != nil {
-				for _, ref := range *refs {
-					fa, ok := ref.(*ssa.FieldAddr)
-					if !ok || fa.Referrers() == nil {
-						continue
-					}
-					t := al.Type().Underlying().(*types.Pointer).Elem().Underlying().(*types.Struct)
-					for _, r2 := range *fa.Referrers() {
-						if st, ok := r2.(*ssa.Store); ok {
-							l.fields[t.Field(fa.Field).Name()] = st.Val
-						}
-					}
-				}
-			}
-			l.site = al.Block()
-			out = append(out, l)
-		}
+func fieldsOf(al *ssa.Alloc) map[string]ssa.Value {
+	out := map[string]ssa.Value{}
+	t, ok := al.Type().Underlying().(*types.Pointer).Elem().Underlying().(*types.Struct)
+	if !ok || al.Referrers() == nil {
+		return out
 	}
-	// constructor helpers: a repository function of the same package whose only return value is such a literal
-	for _, b := range fn.Blocks {
-		for _, in := range b.Instrs {
-			call, ok := in.(*ssa.Call)
-			if !ok {
-				continue
-			}
-			h := call.Common().StaticCallee()
-			if h == nil || h.Pkg != fn.Pkg || h == fn || len(h.Blocks) == 0 || depthGuard > 2 {
-				continue
-			}
-			var ret *ssa.Return
-			nret := 0
-			for _, hb := range h.Blocks {
-				if rt, ok := hb.Instrs[len(hb.Instrs)-1].(*ssa.Return); ok {
-					ret = rt
-					nret++
-				}
-			}
-			if nret != 1 || len(ret.Results) != 1 {
-				continue
-			}
-			al, ok := ret.Results[0].(*ssa.Alloc)
-			if !ok || !names[structName(al.Type())] {
-				continue
-			}
-			depthGuard++
-			inner := literalsOf(h, names)
-			depthGuard--
-			for _, l := range inner {
-				if l.alloc != al {
-					continue
-				}
-				l.env = map[*ssa.Parameter]ssa.Value{}
-				for i, prm := range h.Params {
-					if i < len(call.Common().Args) {
-						l.env[prm] = call.Common().Args[i]
-					}
-				}
-				l.pos = call.Pos()
-				l.site = call.Block()
-				out = append(out, l)
+	for _, ref := range *al.Referrers() {
+		fa, ok := ref.(*ssa.FieldAddr)
+		if !ok || fa.Referrers() == nil {
+			continue
+		}
+		for _, r2 := range *fa.Referrers() {
+			if st, ok := r2.(*ssa.Store); ok {
+				out[t.Field(fa.Field).Name()] = st.Val
 			}
 		}
 	}
 	return out
 }
 
-var depthGuard int
+// closureOf resolves the callee of a call of a local closure.
+func closureOf(v ssa.Value) *ssa.MakeClosure {
+	switch x := v.(type) {
+	case *ssa.MakeClosure:
+		return x
+	case *ssa.UnOp:
+		if al, ok := x.X.(*ssa.Alloc); ok && al.Referrers() != nil {
+			var found *ssa.MakeClosure
+			for _, ref := range *al.Referrers() {
+				if st, ok := ref.(*ssa.Store); ok && st.Addr == ssa.Value(al) {
+					mc, isMC := st.Val.(*ssa.MakeClosure)
+					if !isMC || found != nil {
+						return nil
+					}
+					found = mc
+				}
+			}
+			return found
+		}
+	}
+	return nil
+}
+
+func literalsOf(root *ssa.Function, names map[string]bool) []literal {
+	var out []literal
+	var walk func(fn *ssa.Function, env map[ssa.Value]ssa.Value, site *ssa.BasicBlock, inner []*ssa.BasicBlock, via *ssa.Call, depth int)
+	walk = func(fn *ssa.Function, env map[ssa.Value]ssa.Value, site *ssa.BasicBlock, inner []*ssa.BasicBlock, via *ssa.Call, depth int) {
+		ei := -1
+		res := fn.Signature.Results()
+		for i := 0; i < res.Len(); i++ {
+			t := res.At(i).Type()
+			if types.Implements(t, errIface()) {
+				ei = i
+			}
+		}
+		for _, b := range fn.Blocks {
+			for _, in := range b.Instrs {
+				switch x := in.(type) {
+				case *ssa.Alloc:
+					if !names[structName(x.Type())] {
+						continue
+					}
+					l := literal{alloc: x, name: structName(x.Type()), fields: fieldsOf(x), pos: x.Pos(), env: env, site: site, call: via}
+					if fn == root {
+						l.site = b
+					} else {
+						l.inner = append(append([]*ssa.BasicBlock{}, inner...), b)
+						l.pos = via.Pos()
+						// returned as the first result together with a nil error?
+						if x.Referrers() != nil && ei > 0 {
+							for _, ref := range *x.Referrers() {
+								ld, ok := ref.(*ssa.UnOp)
+								if !ok || ld.Referrers() == nil {
+									continue
+								}
+								for _, r2 := range *ld.Referrers() {
+									if ret, ok := r2.(*ssa.Return); ok && len(ret.Results) > ei && ret.Results[0] == ssa.Value(ld) {
+										if c, isC := ret.Results[ei].(*ssa.Const); isC && c.IsNil() {
+											l.retOf = fn
+											l.inner[len(l.inner)-1] = ret.Block()
+										}
+									}
+								}
+							}
+						}
+					}
+					out = append(out, l)
+				case *ssa.Call:
+					if depth >= 3 {
+						continue
+					}
+					var callee *ssa.Function
+					sub := map[ssa.Value]ssa.Value{}
+					for k, v := range env {
+						sub[k] = v // the enclosing contexts stay bound (arguments are rendered in them)
+					}
+					bind := func(v ssa.Value) ssa.Value {
+						for i := 0; i < 3; i++ {
+							if b2, ok := env[v]; ok && b2 != v {
+								v = b2
+								continue
+							}
+							break
+						}
+						return v
+					}
+					if h := x.Common().StaticCallee(); h != nil && h.Pkg == root.Pkg && h != root && h != fn && len(h.Blocks) > 0 && closureOf(x.Common().Value) == nil {
+						callee = h
+					} else if mc := closureOf(x.Common().Value); mc != nil {
+						if cf, ok := mc.Fn.(*ssa.Function); ok && len(cf.Blocks) > 0 {
+							callee = cf
+							for i, fv := range cf.FreeVars {
+								if i >= len(mc.Bindings) {
+									continue
+								}
+								bv := mc.Bindings[i]
+								if cell, ok := bv.(*ssa.Alloc); ok && cell.Referrers() != nil {
+									var stored ssa.Value
+									n := 0
+									for _, ref := range *cell.Referrers() {
+										if st, ok := ref.(*ssa.Store); ok && st.Addr == ssa.Value(cell) {
+											stored = st.Val
+											n++
+										}
+									}
+									if n == 1 {
+										sub[fv] = bind(stored)
+									}
+								} else {
+									sub[fv] = bind(bv)
+								}
+							}
+						}
+					}
+					if callee == nil {
+						continue
+					}
+					for i, prm := range callee.Params {
+						if i < len(x.Common().Args) {
+							sub[prm] = bind(x.Common().Args[i])
+						}
+					}
+					s2, v2 := site, via
+					in2 := inner
+					if fn == root {
+						s2, v2 = b, x
+					} else {
+						in2 = append(append([]*ssa.BasicBlock{}, inner...), b)
+					}
+					walk(callee, sub, s2, in2, v2, depth+1)
+				}
+			}
+		}
+	}
+	walk(root, nil, nil, nil, nil, 0)
+	return out
+}
+
+var errIfaceCache *types.Interface
+
+func errIface() *types.Interface {
+	if errIfaceCache == nil {
+		errIfaceCache = types.Universe.Lookup("error").Type().Underlying().(*types.Interface)
+	}
+	return errIfaceCache
+}
 
 // posExpr classifies a Line/Column value: "0", or "<node path>.<Field>-1", or other.
-func posExpr(v ssa.Value, env map[*ssa.Parameter]ssa.Value) (node, field string, ok bool) {
+func posExpr(v ssa.Value, env map[ssa.Value]ssa.Value) (node, field string, ok bool) {
 	if c, isC := v.(*ssa.Const); isC && c.Value != nil && c.Value.Kind() == constant.Int {
 		if c.Int64() == 0 {
 			return "", "0", true
@@ -170,6 +253,13 @@ func posExpr(v ssa.Value, env map[*ssa.Parameter]ssa.Value) (node, field string,
 		return "", "", false
 	}
 	path := envPath(bo.X, env)
+	if os.Getenv("VERIF_E6_DEBUG") != "" {
+		ks := ""
+		for k, v := range env {
+			ks += fmt.Sprintf(" %T:%s->%s", k, k.Name(), e5path.AccessPath(v))
+		}
+		fmt.Fprintf(os.Stderr, "E6 posExpr %s => %q env{%s}\n", bo.X.Name(), path, ks)
+	}
 	i := strings.LastIndex(path, ".")
 	if i < 0 {
 		return "", "", false
@@ -181,7 +271,7 @@ func posExpr(v ssa.Value, env map[*ssa.Parameter]ssa.Value) (node, field string,
 func Run(p *load.Prog, r *oblig.Report) {
 	r.Rule("R6.1", "instance-table", "every accepted path value is ReplaceAll(QueryUnescape(node.Value), \"\\\\\", \"/\") — decode first, separator normalisation outermost, nothing else in the chain", 1)
 	r.Rule("R6.2", "instance-table", "the accept site is dominated by: decode error nil, string tag, !Contains(V,\"../\"), !HasPrefix(V,\"/\"), HasSuffix(V,\".fga\") — all on the very value V that is returned", 5)
-	r.Rule("R6.4", "instance-table", "Line/Column of every property and error are the constant 0 or node.Line-1 / node.Column-1 of one node, the node whose value is reported", 12)
+	r.Rule("R6.4", "instance-table", "Line/Column of every property and error are the constant 0 or node.Line-1 / node.Column-1 of one node, the node whose value is reported", 8)
 	r.Rule("R6.5", "instance-table", "the schema is stored only when its value equals \"1.2\"; the manifest text reaches the YAML decoder unmodified", 2)
 	r.Rule("R5.3", "instance-table", "on every path through the contents loop exactly one thing happens: one error is appended or the entry is accepted", 1)
 	r.Rule("R5.1", "instance-table", "the manifest is returned only when the error accumulator is empty", 1)
@@ -210,6 +300,41 @@ func Run(p *load.Prog, r *oblig.Report) {
 								inAppend = true
 							}
 						}
+					}
+				}
+			}
+		}
+		// or: returned by an item helper together with a nil error, and the helper's first result is what is appended
+		if !inAppend && l.retOf != nil && l.call != nil && l.call.Common().StaticCallee() == l.retOf && l.call.Referrers() != nil {
+			for _, ref := range *l.call.Referrers() {
+				ex, ok := ref.(*ssa.Extract)
+				if !ok || ex.Index != 0 || ex.Referrers() == nil {
+					continue
+				}
+				for _, r2 := range *ex.Referrers() {
+					st, ok := r2.(*ssa.Store)
+					if !ok {
+						continue
+					}
+					if _, isIdx := st.Addr.(*ssa.IndexAddr); !isIdx {
+						continue
+					}
+					// the append must happen only when the helper's error is nil
+					guarded := false
+					for _, ce := range e5path.DominatingConds(st.Block()) {
+						if c, isB := ce.Cond.(*ssa.BinOp); isB {
+							if e2, isEx := c.X.(*ssa.Extract); isEx && e2.Tuple == ssa.Value(l.call) && e2.Index > 0 {
+								if cn, isC := c.Y.(*ssa.Const); isC && cn.IsNil() && ((c.Op == token.NEQ && !ce.Branch) || (c.Op == token.EQL && ce.Branch)) {
+									guarded = true
+								}
+							}
+						}
+					}
+					if guarded {
+						inAppend = true
+						l.site = st.Block()
+					} else {
+						r.Bad("R6.2", "accept-guard:helper-error-nil", pos(st.Pos()), "the item returned by "+l.retOf.Name()+" is appended without testing the error it returns with it: a rejected entry is accepted")
 					}
 				}
 			}
@@ -263,7 +388,7 @@ func Run(p *load.Prog, r *oblig.Report) {
 								}
 							}
 						}
-						src := e5path.AccessPath(srcV)
+						src := envPath(srcV, l.env)
 						if strings.HasSuffix(src, ".Value") {
 							okChain = true
 							nodePath = strings.TrimSuffix(src, ".Value")
@@ -311,7 +436,46 @@ func Run(p *load.Prog, r *oblig.Report) {
 				errTuple = helperCall
 			}
 		}
-		for _, ce := range e5path.DominatingConds(l.site) {
+		var allConds []e5path.CondEdge
+		allConds = append(allConds, e5path.DominatingConds(l.site)...)
+		for _, ib := range l.inner {
+			allConds = append(allConds, e5path.DominatingConds(ib)...)
+		}
+		// a selector variable: `problem == ""` holds only when the variable still has its initial "" — that is, on the
+		// one way into the join on which no case assigned a message: the conditions of that way are implied
+		for _, ce := range append([]e5path.CondEdge{}, allConds...) {
+			bo, isB := ce.Cond.(*ssa.BinOp)
+			if !isB || (bo.Op != token.EQL && bo.Op != token.NEQ) {
+				continue
+			}
+			phi, isPhi := bo.X.(*ssa.Phi)
+			if s, isS := constStr(bo.Y); !isPhi || !isS || s != "" || (bo.Op == token.EQL) != ce.Branch {
+				continue
+			}
+			var emptyPred *ssa.BasicBlock
+			n := 0
+			for i, e := range phi.Edges {
+				if s, isS := constStr(e); isS && s == "" {
+					emptyPred = phi.Block().Preds[i]
+					n++
+				}
+			}
+			if n != 1 {
+				continue
+			}
+			allConds = append(allConds, e5path.DominatingConds(emptyPred)...)
+			if ifi, ok := emptyPred.Instrs[len(emptyPred.Instrs)-1].(*ssa.If); ok {
+				allConds = append(allConds, e5path.CondEdge{Cond: ifi.Cond, Branch: emptyPred.Succs[0] == phi.Block(), If: ifi})
+			}
+		}
+		for _, ce := range allConds {
+			for {
+				u, isNot := ce.Cond.(*ssa.UnOp)
+				if !isNot || u.Op != token.NOT {
+					break
+				}
+				ce.Cond, ce.Branch = u.X, !ce.Branch
+			}
 			switch c := ce.Cond.(type) {
 			case *ssa.BinOp:
 				if ex, ok := c.X.(*ssa.Extract); ok && errTuple != nil && ex.Tuple == errTuple && ex.Index == 1 {
@@ -319,7 +483,7 @@ func Run(p *load.Prog, r *oblig.Report) {
 						got["decode-error-nil"] = true
 					}
 				}
-				if e5path.AccessPath(c.X) == nodePath+".Tag" {
+				if envPath(c.X, l.env) == nodePath+".Tag" {
 					if s, ok := constStr(c.Y); ok && s == "!!str" && ((c.Op == token.NEQ && !ce.Branch) || (c.Op == token.EQL && ce.Branch)) {
 						got["string-tag"] = true
 					}
@@ -435,8 +599,11 @@ func Run(p *load.Prog, r *oblig.Report) {
 					msg = l.env[prm] // the message is built by the caller of the constructor helper
 				}
 				if bo, isB := msg.(*ssa.BinOp); isB {
-					if q := e5path.AccessPath(bo.Y); strings.HasSuffix(q, ".Value") && q != ln+".Value" {
+					if q := envPath(bo.Y, l.env); strings.HasSuffix(q, ".Value") && q != ln+".Value" {
 						okNode = false
+						if os.Getenv("VERIF_E6_DEBUG") != "" {
+							fmt.Fprintf(os.Stderr, "E6 msg path %q vs position node %q\n", q, ln)
+						}
 					}
 				}
 			}
@@ -459,6 +626,36 @@ func Run(p *load.Prog, r *oblig.Report) {
 				if bo, isB := ce.Cond.(*ssa.BinOp); isB && strings.HasSuffix(e5path.AccessPath(bo.X), ".Schema.Value") {
 					if s, isS := constStr(bo.Y); isS && s == "1.2" && ((bo.Op == token.NEQ && !ce.Branch) || (bo.Op == token.EQL && ce.Branch)) {
 						okSchema = true
+					}
+				}
+			}
+			// the property comes from a schema helper together with a nil error: the store happens only on the nil
+			// error, and the helper returns a nil error only under Value == "1.2" (its parameter bound to the schema node)
+			if ex, isEx := st.Val.(*ssa.Extract); isEx && !okSchema && ex.Index == 0 {
+				if hc, isCall := ex.Tuple.(*ssa.Call); isCall {
+					errNil := false
+					for _, ce := range e5path.DominatingConds(b) {
+						if c, isB := ce.Cond.(*ssa.BinOp); isB {
+							if e2, isE2 := c.X.(*ssa.Extract); isE2 && e2.Tuple == ssa.Value(hc) && e2.Index > 0 {
+								if cn, isC := c.Y.(*ssa.Const); isC && cn.IsNil() && ((c.Op == token.NEQ && !ce.Branch) || (c.Op == token.EQL && ce.Branch)) {
+									errNil = true
+								}
+							}
+						}
+					}
+					for _, l := range lits {
+						if l.retOf == nil || l.call != hc || !errNil {
+							continue
+						}
+						for _, ib := range l.inner {
+							for _, ce := range e5path.DominatingConds(ib) {
+								if bo, isB := ce.Cond.(*ssa.BinOp); isB && strings.HasSuffix(envPath(bo.X, l.env), ".Schema.Value") {
+									if s, isS := constStr(bo.Y); isS && s == "1.2" && ((bo.Op == token.NEQ && !ce.Branch) || (bo.Op == token.EQL && ce.Branch)) {
+										okSchema = true
+									}
+								}
+							}
+						}
 					}
 				}
 			}
@@ -591,6 +788,47 @@ func loopPaths(p *load.Prog, r *oblig.Report) {
 		}
 		return ""
 	}
+	// reportsViaHelper: the callee is a function literal bound to a local (or a function of the package) whose body
+	// appends to the error accumulator on every path (its top-level statements)
+	reportsViaHelper := func(call *ast.CallExpr) bool {
+		id, ok := call.Fun.(*ast.Ident)
+		if !ok {
+			return false
+		}
+		obj := info.Uses[id]
+		var body *ast.BlockStmt
+		ast.Inspect(fd, func(n ast.Node) bool {
+			switch x := n.(type) {
+			case *ast.AssignStmt:
+				for i, l := range x.Lhs {
+					if lid, ok := l.(*ast.Ident); ok && info.Defs[lid] == obj && i < len(x.Rhs) {
+						if fl, ok := x.Rhs[i].(*ast.FuncLit); ok {
+							body = fl.Body
+						}
+					}
+				}
+			}
+			return true
+		})
+		if body == nil {
+			for _, f := range pk.Syntax {
+				for _, d := range f.Decls {
+					if hd, ok := d.(*ast.FuncDecl); ok && hd.Body != nil && info.Defs[hd.Name] == obj {
+						body = hd.Body
+					}
+				}
+			}
+		}
+		if body == nil {
+			return false
+		}
+		for _, st := range body.List {
+			if as, ok := st.(*ast.AssignStmt); ok && isAppendTo(as) == "error" {
+				return true
+			}
+		}
+		return false
+	}
 	var walk func(stmts []ast.Stmt, in []path) []path
 	walk = func(stmts []ast.Stmt, in []path) []path {
 		cur := in
@@ -640,9 +878,31 @@ func loopPaths(p *load.Prog, r *oblig.Report) {
 				live = append(thenP, elseP...)
 			case *ast.BlockStmt:
 				live = walk(s.List, live)
-			case *ast.DeclStmt, *ast.ExprStmt, *ast.EmptyStmt:
+			case *ast.ExprStmt:
+				// a call of a local closure (or package helper) whose body appends to the error accumulator
+				if call, ok := s.X.(*ast.CallExpr); ok && reportsViaHelper(call) {
+					for i := range live {
+						live[i].errs++
+					}
+				}
+			case *ast.SwitchStmt:
+				// each clause is one way through; without a default the item may pass on untouched
+				var outP []path
+				hasDefault := false
+				for _, c := range s.Body.List {
+					cc := c.(*ast.CaseClause)
+					if cc.List == nil {
+						hasDefault = true
+					}
+					outP = append(outP, walk(cc.Body, clonePaths(live))...)
+				}
+				if !hasDefault {
+					outP = append(outP, clonePaths(live)...)
+				}
+				live = outP
+			case *ast.DeclStmt, *ast.EmptyStmt:
 			default:
-				undecided = fmt.Sprintf("statement %T in the loop body (nested loops and switches are not enumerated)", st)
+				undecided = fmt.Sprintf("statement %T in the loop body (nested loops are not enumerated)", st)
 			}
 			cur = append(finished, live...)
 		}
